@@ -277,6 +277,12 @@ def absIDArray (objs : Array Obj) : Nat → Nat → Option (List String)
       | none => some [o.id]
       | some p => (absIDArray objs fuel p).map fun a => a ++ [o.id]
 
+/-- `strings.Join(ids, ".")` -/
+def joinDots : List String → String
+  | [] => ""
+  | [a] => a
+  | a :: b :: r => a ++ "." ++ joinDots (b :: r)
+
 def stripCommon : List String → List String → List String → List String × List String × List String
   | acc, a :: (a2 :: ar), b :: (b2 :: br) =>
     if lower a == lower b then stripCommon (acc ++ [a]) (a2 :: ar) (b2 :: br) else (acc, a :: a2 :: ar, b :: b2 :: br)
@@ -285,17 +291,19 @@ def stripCommon : List String → List String → List String → List String ×
 /-- `edge.AbsID()` -/
 def edgeAbsID (src dst : List String) (srcArrow dstArrow : Bool) (index : Nat) : String :=
   let (common, s, d) := stripCommon [] src dst
-  let commonKey := if common.isEmpty then "" else ".".intercalate common ++ "."
+  let commonKey := if common.isEmpty then "" else joinDots common ++ "."
   let arrow := if srcArrow && dstArrow then "<->" else if srcArrow then "<-" else if dstArrow then "->" else "--"
-  s!"{commonKey}({".".intercalate s} {arrow} {".".intercalate d})[{index}]"
+  s!"{commonKey}({joinDots s} {arrow} {joinDots d})[{index}]"
 
 /-! ### connections -/
 
 structure EdgeIn where
   src : Option Nat := none          -- index of edge.Src in g.Objects (`none`: a synthetic end point such as a
   dst : Option Nat := none          --   sequence-diagram lifeline end, which is not an object of the graph)
-  srcPath : List String := []       -- IDs on the parent chain of edge.Src, outermost first (`AbsIDArray`)
-  dstPath : List String := []
+  srcPath : List String := []       -- IDs on the parent chain of edge.Src, outermost first (`AbsIDArray`: an object
+  dstPath : List String := []       --   without parent contributes nothing)
+  srcTop : String := ""             -- ID of the parentless object the chain ends in when that is not the board root
+  dstTop : String := ""             --   (`AbsID` of a parentless object is its own ID, its `AbsIDArray` is empty)
   srcArrow : Bool := false
   dstArrow : Bool := false
   index : Nat := 0
@@ -371,20 +379,28 @@ def Graph.absID (g : Graph) (i : Nat) : Option String := D2V.Export.absID g.obje
 def toShape (rules : Option Rules) (g : Graph) (i : Nat) (o : Obj) : ShapeOut :=
   { id := g.absID i, style := toShapeStyle rules o }
 
+/-- ID chain of an edge end point: an end point that is an object of the graph is addressed through the object tree,
+    a synthetic one (sequence-diagram lifeline end) by its own chain -/
+def Graph.endpointPath (g : Graph) (i : Option Nat) (own : List String) : Option (List String) :=
+  match i with
+  | some i => absIDArray g.objects (g.objects.size + 1) i
+  | none => some own
+
+/-- `AbsID()` of an edge end point: the shape ID for an object of the graph; for a synthetic end point the dotted
+    chain, headed by the parentless top's own ID when there is one -/
+def Graph.endpointID (g : Graph) (i : Option Nat) (own : List String) (top : String) : Option String :=
+  match i with
+  | some _ => (g.endpointPath i own).map joinDots
+  | none => some (joinDots ((if top == "" then [] else [top]) ++ own))
+
 def toConnection (rules : Option Rules) (g : Graph) (e : EdgeIn) : ConnOut :=
-  let n := g.objects.size + 1
-  -- an end point that is an object of the graph is addressed through the object tree, a synthetic one by its own chain
-  let path (i : Option Nat) (own : List String) : Option (List String) :=
-    match i with
-    | some i => absIDArray g.objects n i
-    | none => some own
-  let sp := path e.src e.srcPath
-  let dp := path e.dst e.dstPath
+  let sp := g.endpointPath e.src e.srcPath
+  let dp := g.endpointPath e.dst e.dstPath
   { id := match sp, dp with
       | some s, some d => some (edgeAbsID s d e.srcArrow e.dstArrow e.index)
       | _, _ => none
-    src := sp.map fun p => ".".intercalate p
-    dst := dp.map fun p => ".".intercalate p
+    src := g.endpointID e.src e.srcPath e.srcTop
+    dst := g.endpointID e.dst e.dstPath e.dstTop
     style := toConnStyle rules e }
 
 /-- `Export`: `diagram.Shapes[i] = toShape(g.Objects[i])`, `diagram.Connections[i] = toConnection(g.Edges[i])` -/
